@@ -139,3 +139,15 @@ func init() {
 	addMutant(mutant{Name: "silent/rename-codec-helpers", Silent: true,
 		Renames: map[string]string{"encoder": "fieldWriter", "decoder": "fieldReader", "scratch": "tmp"}})
 }
+
+func init() {
+	addMutant(mutant{Name: "migrate/copystable-swaps-extra-lists", Fire: []string{"VF-23"},
+		Edits: []edit{{"migrate/migrate.go", "	for _, k := range append(knownIntKeys, extraIntKeys...) {", "	for _, k := range append(knownIntKeys, extraKeys...) {"},
+			{"migrate/migrate.go", "	for _, k := range append(knownKeys, extraKeys...) {", "	for _, k := range append(knownKeys, extraIntKeys...) {"}}})
+	addMutant(mutant{Name: "migrate/copystable-ignores-extra-int-keys", Fire: []string{"VF-23"},
+		Edits: []edit{{"migrate/migrate.go", "	for _, k := range append(knownIntKeys, extraIntKeys...) {", "	for _, k := range knownIntKeys {"}}})
+	addMutant(mutant{Name: "migrate/copystable-reads-destination", Fire: []string{"VF-23"},
+		Edits: []edit{{"migrate/migrate.go", "		v, err := src.Get(k)", "		v, err := dst.Get(k)"}}})
+	addMutant(mutant{Name: "migrate/copystable-skips-unreadable-key", Fire: []string{"VF-23"},
+		Edits: []edit{{"migrate/migrate.go", "		v, err := src.Get(k)\n		if err != nil {\n			return fmt.Errorf(\"failed to read key %s: %w\", k, err)\n		}", "		v, err := src.Get(k)\n		if err != nil {\n			continue\n		}"}}})
+}
